@@ -62,6 +62,10 @@ struct Pay {
     // only): carried by copies, moves, assignments and swap, ignored by ==, untouched by set().  0 = not in use.  When a
     // REGISTERED instance changes its rev the trace gets a marker `prv <name> <rev>` right after the `pwr`.
     long rev = 0;
+    // moved-from marker (a real movable type is left "valid but unspecified", e.g. an empty string): set on the SOURCE of a
+    // move, cleared by any assignment to the object.  Not part of the value the model sees; clients check that the wrapped
+    // object is not left in this state by a finished or failed operation (husk_check in the lock-family client).
+    bool husk = false;
     void take_rev(long r)
     {
         if ((r != 0 || rev != 0) && traced()) {
@@ -90,6 +94,7 @@ struct Pay {
     }
     void set(long v)
     {
+        husk = false;
         if (!traced()) {
             a = v;
             b = v;
@@ -108,6 +113,7 @@ struct Pay {
         a = v;
         b = v;
         rev = o.rev;
+        husk = o.husk;
     }
     // moves are noexcept and never throw (like every standard container); only COPIES are fault-injection points.
     // A wrapper that derives a noexcept specification from the wrong trait then terminates when a copy throws.
@@ -117,18 +123,27 @@ struct Pay {
         a = v;
         b = v;
         rev = o.rev;
+        husk = o.husk;
+        o.husk = true;
     }
     Pay& operator=(const Pay& o)
     {
         user_call();
+        bool h = o.husk;
         set(o.get());
         take_rev(o.rev);
+        husk = h;
         return *this;
     }
     Pay& operator=(Pay&& o) noexcept
     {
+        bool h = o.husk;
         set(o.get());
         take_rev(o.rev);
+        husk = h;
+        if (&o != this) {
+            o.husk = true;
+        }
         return *this;
     }
     friend bool operator==(const Pay& x, const Pay& y)
@@ -143,10 +158,14 @@ struct Pay {
         long vy = y.get();
         long rx = x.rev;
         long ry = y.rev;
+        bool hx = x.husk;
+        bool hy = y.husk;
         x.set(vy);
         x.take_rev(ry);
+        x.husk = hy;
         y.set(vx);
         y.take_rev(rx);
+        y.husk = hx;
     }
 };
 
